@@ -127,3 +127,7 @@ package npm
 // lifting to whole ranges (C20): an OR of AND groups treats versions that compare equal alike (the two sides are what
 // Contains returns for v1 and v2, by its or-of-and clause)
 //@ lemma c20-range-equal [C20] uses c20-equal: forall nr *VersionRange, v1, v2 *Version :: nr != nil && v1 != nil && v2 != nil && wfRange(nr) && v1.Compare(v2) == 0 ==> ((exists g int :: 0 <= g && g < len(nr.constraintGroups) && (forall i int :: 0 <= i && i < len(nr.constraintGroups[g]) ==> nr.constraintGroups[g][i].matches(v1))) == (exists g int :: 0 <= g && g < len(nr.constraintGroups) && (forall i int :: 0 <= i && i < len(nr.constraintGroups[g]) ==> nr.constraintGroups[g][i].matches(v2))))
+
+// ---- the registered name (the VERS evaluator and the CLI select behaviour by it)
+//@ func (*Ecosystem).Name
+//@   ensures result == "npm"   [C04 C15 C17]
